@@ -128,4 +128,33 @@ example : Deriv exG.g exS [(exS, sF, [exA, exA]), (exA, sA, []), (exA, sB, [])] 
 example : ((cell exG.g 5 ⟨3/8, [], exA, [sF, sA], [exS, exA], [[exA, exA], []]⟩).length,
     tailMass exG 5 [exA]) = (2, 1) := by decide +kernel
 
+/-! ### finding C08-F1 on the model: the unrepaired split step does not keep the cover -/
+
+/-- `__try_split_node_in_group__` BEFORE the repair C08-F1 (grammar_splitter.py:102-123 of the
+    unrepaired file, with the group read from `prob_groups[i][0]`): the i-th most probable node is
+    split, but `group_a.pop(-i)` removes the node at position -i of the *unsorted* group. -/
+def trySplitOld {U : Type} [DecidableEq U] (pg : PUG U) (pgs : PG U) (gi : Nat) : Option (PG U) :=
+  match pgs[gi]? with
+  | none => none
+  | some ga =>
+    match trySplitLoop pg ga.1 (orderOf ga.1) (ga.1.length + 1) 1 with
+    | none => none
+    | some (idx, kids) =>
+      let i := (orderOf ga.1).length - (orderOf ga.1).idxOf idx
+      if i ≥ ga.1.length then none else
+      some (pgs.set gi (ga.1.eraseIdx (ga.1.length - i) ++ kids, ga.2))
+
+def exNodeF : Node Nat := ⟨3/4, [exA], exA, [sF], [exS], [[exA, exA]]⟩
+def exNodeC : Node Nat := ⟨1/4, [], (Ty.unknown, 0), [sC], [exS], [[]]⟩
+
+/-- finding C08-F1 (witness on the model): the group `[f · ·, c]` is a cover; the unrepaired
+    split step splits `f · ·` but removes `c`, so the result is no longer a cover. -/
+theorem finding_C08_F1_old_split_step_loses_a_node :
+    coverUpTo exG.g 5 (flat [([exNodeF, exNodeC], 1)]) = true ∧
+    (trySplitOld exG [([exNodeF, exNodeC], 1)] 0).map (fun pgs => (coverUpTo exG.g 5 (flat pgs), (flat pgs).length))
+      = some (false, 3) ∧
+    (trySplit exG [([exNodeF, exNodeC], 1)] 0).map (fun pgs => (coverUpTo exG.g 5 (flat pgs), (flat pgs).length))
+      = some (true, 3) := by
+  decide +kernel
+
 end PS.Sp
